@@ -97,6 +97,18 @@ pub enum Driver {
     /// fail), followed by `write_all(input[cut..])` on the same stream: the abandoned call's pieces were consumed, so
     /// both calls together must deliver what one call with the whole input delivers
     FmtAbandonThen(usize),
+    /// like `FmtAbandonThen`, but the `Display` impl panics after writing its text (the panic is caught): a stream
+    /// that parked its state somewhere while formatting must have it back afterwards
+    FmtPanicThen(usize),
+}
+
+/// see `Driver::FmtPanicThen`
+struct Bomb<'a>(&'a str);
+impl std::fmt::Display for Bomb<'_> {
+    fn fmt(&self, f: &mut std::fmt::Formatter<'_>) -> std::fmt::Result {
+        f.write_str(self.0)?;
+        panic!("Display impl of the harness panics on purpose")
+    }
 }
 
 /// see `Driver::FmtAbandonThen`
@@ -433,6 +445,55 @@ pub fn run_case(mode: Mode, input: &[u8], driver: Driver, script: Script) -> (Re
                     }
                 }
             }
+            Driver::FmtPanicThen(cut) => {
+                let mut strip_s;
+                let mut auto_s;
+                let stream: &mut dyn Write = match mode {
+                    Mode::Strip => {
+                        strip_s = anstream::StripStream::new(boxed);
+                        &mut strip_s
+                    }
+                    Mode::PassAnsi => {
+                        auto_s = anstream::AutoStream::always_ansi(boxed);
+                        &mut auto_s
+                    }
+                    Mode::PassAlways => {
+                        auto_s = anstream::AutoStream::always(boxed);
+                        &mut auto_s
+                    }
+                };
+                let a = std::str::from_utf8(&input[..cut]).map_err(|_| "machinery: fragment not UTF-8".to_string())?;
+                begin_call(&sh);
+                let first = std::panic::catch_unwind(std::panic::AssertUnwindSafe(|| write!(stream, "{}", Bomb(a))));
+                if first.is_ok() {
+                    // the stream failed before the Display impl got to its panic (scripted fault): judged by other drivers
+                    return Ok(());
+                }
+                if !sh.borrow().call_errors.is_empty() || sh.borrow().call_short {
+                    return Ok(());
+                }
+                begin_call(&sh);
+                let second = stream.write_all(&input[cut..]);
+                let (errs, zero) = {
+                    let s = sh.borrow();
+                    (s.call_errors.clone(), s.call_zero)
+                };
+                match second {
+                    Ok(()) => {
+                        if errs.iter().any(|k| *k != ErrorKind::Interrupted) {
+                            return Err(format!("inner error {:?} was turned into success", errs[0]));
+                        }
+                        check_delivered(mode, input, input.len(), &sh, "after a write! whose Display impl panicked (caught) and write_all of the rest")
+                    }
+                    Err(e) => {
+                        let allowed = errs.contains(&e.kind()) || (zero && e.kind() == ErrorKind::WriteZero);
+                        if !allowed {
+                            return Err(format!("returned error kind {:?} but the inner writer raised {:?} (accepted zero bytes: {zero})", e.kind(), errs));
+                        }
+                        Ok(())
+                    }
+                }
+            }
             Driver::FmtStubborn(cut) => {
                 let mut strip_s;
                 let mut auto_s;
@@ -579,6 +640,7 @@ pub fn drivers_for(tokens: &[usize]) -> Vec<Driver> {
             d.push(Driver::TwoFmt(c));
             d.push(Driver::FmtStubborn(c));
             d.push(Driver::FmtAbandonThen(c));
+            d.push(Driver::FmtPanicThen(c));
         }
     }
     // vectored: every pair of byte positions a <= b (cuts may fall inside "é")
@@ -630,6 +692,8 @@ pub fn parse_driver(s: &str) -> Driver {
         Driver::FmtStubborn(nums[0])
     } else if s.starts_with("FmtAbandonThen") {
         Driver::FmtAbandonThen(nums[0])
+    } else if s.starts_with("FmtPanicThen") {
+        Driver::FmtPanicThen(nums[0])
     } else if s.starts_with("WriteAll") {
         Driver::WriteAll
     } else {
@@ -656,6 +720,7 @@ pub fn driver_label(mode: Mode, driver: Driver) -> String {
         Driver::TwoFmt(_) => "write_fmt; write_fmt".to_string(),
         Driver::FmtStubborn(_) => "write_fmt-display-continues-after-error".to_string(),
         Driver::FmtAbandonThen(_) => "write_fmt-abandoned-by-display; write_all".to_string(),
+        Driver::FmtPanicThen(_) => "write_fmt-display-panics; write_all".to_string(),
     };
     format!("{m}/{d}")
 }
@@ -692,7 +757,7 @@ pub fn sweep(mode: Mode, maxlen: usize, k_of: &(dyn Fn(usize) -> usize + Sync)) 
     cases.par_iter().for_each(|(input, ntoks, drivers)| {
         for &driver in drivers {
             let k = k_of(*ntoks);
-            let kk = if matches!(driver, Driver::Vectored(..) | Driver::TwoWriteAll(_) | Driver::TwoFmt(_) | Driver::FmtStubborn(_) | Driver::FmtAbandonThen(_)) && *ntoks > 4 { k - 1 } else { k };
+            let kk = if matches!(driver, Driver::Vectored(..) | Driver::TwoWriteAll(_) | Driver::TwoFmt(_) | Driver::FmtStubborn(_) | Driver::FmtAbandonThen(_) | Driver::FmtPanicThen(_)) && *ntoks > 4 { k - 1 } else { k };
             let st = vexplore::scripts::enumerate(kk, |s| {
                 let r = match guard(|| run_case(mode, input, driver, s.clone())) {
                     Ok((r, script)) => {
